@@ -66,6 +66,68 @@ def gen(rng, driver):
     return sc
 
 
+def gen_operands(rng, driver):
+    """--dereference WITHOUT --recursive: the source operands themselves are links to files (relative, absolute, outside,
+    chains); one operand to a new name, or several into an existing directory"""
+    sc = treerun.Scn(); sc.driver = driver; sc.workers = rng.choice([1, 4])
+    sc.d(b'/W').d(b'/X').f(b'/X/ext').d(b'/W/S').f(b'/W/S/plain').d(b'/W/S/real').f(b'/W/S/real/r1')
+    sc.l(b'/W/S/lf', b'plain').l(b'/W/S/lfa', b'/W/S/real/r1').l(b'/W/S/lfo', b'../../X/ext').l(b'/W/S/c1', b'c2').l(b'/W/S/c2', b'real/r1')
+    links = [b'S/lf', b'S/lfa', b'S/lfo', b'S/c1']
+    sc.opts = ['L'] + (['r'] if rng.random() < 0.3 else [])
+    if rng.random() < 0.5:
+        sc.paths = [rng.choice(links), b'NEWNAME']
+    else:
+        sc.d(b'/W/DEST')
+        sc.paths = rng.sample(links, rng.randint(1, 3)) + ([b'S/plain'] if rng.random() < 0.5 else []) + [b'DEST']
+    sc.kinds = ['operand-links' + ('' if 'r' in sc.opts else '-no-recursive')]
+    sc.operands = True
+    return sc
+
+
+def cross_device(ctx):
+    """links whose targets live on ANOTHER file system (tmpfs under /dev/shm): directories and files, absolute, through a chain,
+    relative from a sub-directory.  Oracle only (the namespace model has no device boundaries): the destination equals
+    python's own dereferencing copy of the source."""
+    import shutil, subprocess, filecmp
+    from .. import scen
+    shm = '/dev/shm'
+    if not os.path.isdir(shm) or os.stat(shm).st_dev == os.stat('/var/tmp').st_dev:
+        ctx.count('cross_device.skipped'); ctx.assumptions.append('no second file system available: cross-device links not exercised'); return
+    ext = f'{shm}/xcpv-c13-{os.getpid()}'
+    shutil.rmtree(ext, ignore_errors=True)
+    try:
+        os.makedirs(ext + '/extdir/sub')
+        open(ext + '/extdir/in1', 'wb').write(b'one'); open(ext + '/extdir/sub/in2', 'wb').write(b'two' * 1000); open(ext + '/extfile', 'wb').write(b'file')
+        with core.Scratch('c13x') as base:
+            for driver in ('parfile', 'parblock'):
+                for variant in ('abs', 'chain', 'nested-rel'):
+                    root = base + '/R'; shutil.rmtree(root, ignore_errors=True); os.makedirs(root + '/S/sub')
+                    open(root + '/S/plain', 'wb').write(b'p'); os.symlink(ext + '/extfile', root + '/S/xfile')
+                    if variant == 'abs': os.symlink(ext + '/extdir', root + '/S/xdir')
+                    elif variant == 'chain': os.symlink('hop', root + '/S/xdir'); os.symlink(ext + '/extdir', root + '/S/hop')
+                    else: os.symlink(ext + '/extdir', root + '/S/far'); os.symlink('../far/sub', root + '/S/sub/xdir')
+                    os.makedirs(base + '/aux', exist_ok=True)
+                    r = scen.run_xcp(base + '/aux', ['-r', '-L', '--driver', driver, root + '/S', root + '/DEST'], timeout=60)
+                    ctx.count(f'cross_device.{variant}.exit.{r.cls}'); ctx.case(('cross-device', driver, variant), True)
+                    shutil.copytree(root + '/S', root + '/EXPECT', symlinks=False)
+                    bad = None
+                    if r.cls != '0':
+                        bad = f'a tree whose links all resolve (to another file system) failed to copy: {r.stderr.strip()[-150:]}'
+                    else:
+                        for dp, dn, fn in os.walk(root + '/EXPECT'):
+                            rel = os.path.relpath(dp, root + '/EXPECT')
+                            for n in dn + fn:
+                                d = os.path.join(root, 'DEST', rel, n); e = os.path.join(dp, n)
+                                if os.path.islink(d): bad = f'symbolic link left in the destination at {os.path.join(rel, n)}'
+                                elif os.path.isdir(e) and not os.path.isdir(d): bad = f'{os.path.join(rel, n)} should be a directory'
+                                elif os.path.isfile(e) and (not os.path.isfile(d) or open(d, 'rb').read() != open(e, 'rb').read()):
+                                    bad = f'{os.path.join(rel, n)} (what a link to another file system points to) is missing or differs in the destination'
+                    if bad:
+                        ctx.violation(f'cross-device-{driver}-{variant}.json', dict(driver=driver, variant=variant, external=ext, exit=r.cls, stderr=r.stderr[-300:], oracle=bad), f'C13: {bad} ({driver}, {variant})')
+    finally:
+        shutil.rmtree(ext, ignore_errors=True)
+
+
 def run(ctx):
     ctx.proofs()
     core.build_repo(); core.build_sup()
@@ -73,7 +135,7 @@ def run(ctx):
     n = 120 if ctx.quick else 2000
     # corpus: the repaired defect F4 (a link to a directory became an empty directory)
     c0 = gen(rng, 'parfile'); c0.entries = [e for e in c0.entries if e['k'] != 'l']; c0.l(b'/W/S/ld', b'real'); c0.kinds = ['dir-rel']
-    scs = [c0] + [gen(rng, ['parfile', 'parblock'][i % 2]) for i in range(n)]
+    scs = [c0] + [gen(rng, ['parfile', 'parblock'][i % 2]) for i in range(n)] + [gen_operands(rng, ['parfile', 'parblock'][i % 2]) for i in range(16 if ctx.quick else 200)]
     runs = []
     with core.Scratch('c13') as base:
         for i, sc in enumerate(scs):
@@ -100,6 +162,7 @@ def run(ctx):
                 if left:
                     ctx.violation(f'case-{i}-resolve-fault.json', dict(kinds=sc.kinds, plan=plan, links_left=[repr(p) for p in left], argv=[repr(x) for x in o.argv]),
                                   f'C13: resolving a link failed ({plan}) but the run exited 0 and left the symbolic link {left[0]!r} in the destination')
+    cross_device(ctx)
     for (i, sc, o), a in zip(runs, ans):
         for k in sc.kinds: ctx.count(f'link.{k}')
         ctx.count(f'exit.{o.res.cls}'); ctx.count(f'driver.{sc.driver}')
@@ -116,8 +179,15 @@ def run(ctx):
             bad = f'a dangling or cyclic link ({sc.kinds}) did not make the run fail'
         elif o.res.cls == '0':
             for p, v in after.items():
-                if p.startswith(b'/W/DEST') and v.startswith('l:'):
+                if (p.startswith(b'/W/DEST') or p.startswith(b'/W/NEWNAME')) and v.startswith('l:'):
                     bad = f'symbolic link left in the destination at {p!r}'
+            if getattr(sc, 'operands', False) and not bad:
+                into = b'/W/DEST/' if sc.paths[-1] == b'DEST' else None
+                for sp in sc.paths[:-1]:
+                    r = resolve(ents, b'/W/' + sp)
+                    dp = (into + sp.split(b'/')[-1]) if into else b'/W/NEWNAME'
+                    if r and r[0] == 'f' and after.get(dp) != f'f:{r[1]}':
+                        bad = f'{dp!r} should be a regular file with the bytes {sp!r} points to (found {after.get(dp)})'
             # every source link became what it points to
             def expect(srcp, dstp, depth=0):
                 nonlocal bad
@@ -131,7 +201,8 @@ def run(ctx):
                     for q, e in ents.items():
                         if q.startswith(r[1] + b'/') and b'/' not in q[len(r[1]) + 1:]:
                             expect(q, dstp + b'/' + q[len(r[1]) + 1:], depth + 1)
-            expect(b'/W/S', b'/W/DEST')
+            if not getattr(sc, 'operands', False):
+                expect(b'/W/S', b'/W/DEST')
         elif not must_fail:
             bad = f'a tree whose links all resolve failed to copy: {o.res.stderr.strip()[-150:]}'
         if bad:
@@ -147,7 +218,7 @@ def run(ctx):
                                                       diff=treerun.diff_tokens(o.after, toks, 20), correspondence='-L end state vs Xcp.L1run'),
                           f'model/implementation disagree with --dereference (impl {o.res.cls}, model {ex}; {sc.kinds})', no_input=True)
     ctx.cov['rule'] = ('a fixed source tree plus 1-4 link kinds from {file rel/abs/outside, dir rel/abs-outside/inside-a-dir, chains of 2, 5, 20, 38, link to link to dir, dangling, self loop, 2-cycle, ancestor loop}; '
-                       'both drivers. distinct = distinct (kinds, link table, driver)')
+                       'both drivers; plus link OPERANDS with -L and without -r. distinct = distinct (kinds, link table, driver)')
 
 
 def replay(ctx, path):
